@@ -55,8 +55,14 @@ def make_world(seed, collide):
                 # numbers both below and above what a fresh run allocates
                 num = per_chr_g[g.chrom] if rng.random() < 0.7 else 40 + per_chr_g[g.chrom]
                 id_map[g.id] = "novel_gene_%s_%d" % (g.chrom, num)
+            dense = {w.chrom_order[0]: "nnic", w.chrom_order[1]: "nic"}.get(g.chrom)
             for t in g.transcripts:
-                if rng.random() < 0.5:
+                if dense:
+                    # first chromosome: EVERY reference transcript is transcript<k>.<chr>.nnic with consecutive k (second: .nic), so that the
+                    # first numbers a fresh run would hand out are all taken
+                    per_chr_t[g.chrom] += 1
+                    id_map[t.id] = "transcript%d.%s.%s" % (per_chr_t[g.chrom], g.chrom, dense)
+                elif rng.random() < 0.5:
                     per_chr_t[g.chrom] += 1
                     num = per_chr_t[g.chrom] if rng.random() < 0.7 else 60 + per_chr_t[g.chrom]
                     id_map[t.id] = "transcript%d.%s.%s" % (num, g.chrom, rng.choice(("nic", "nnic")))
